@@ -190,16 +190,22 @@ def validate_shard(args):
             "states": dist, "transitions": gen, "out_tail": "" if ok else out[-2500:]}
 
 
-def find_case_desc(shards, case):
-    pat = '"case":%d,' % case
+def index_case_descs(shards, wanted):
+    """One pass over the shards: descriptors of the wanted case ids."""
+    out = {}
+    if not wanted:
+        return out
     for s in shards:
         with open(s) as f:
             for line in f:
-                if '"ev":"case"' in line and pat in line:
+                if '"ev":"case"' not in line[:400] and '"ev":"case"' not in line[-40:]:
+                    continue
+                m = re.search(r'"case":(\d+)', line)
+                if m and int(m.group(1)) in wanted and '"ev":"case"' in line:
                     o = json.loads(line)
-                    if o.get("case") == case:
-                        return o["desc"]
-    return None
+                    if o.get("ev") == "case":
+                        out[o["case"]] = o["desc"]
+    return out
 
 
 def kind_of(desc):
@@ -316,12 +322,9 @@ def check(pid, tier, seed, replay=None):
         failing_cases.setdefault(v["case"], []).append(v)
     known_hits = {}
     violations = []
-    desc_cache = {}
+    desc_cache = index_case_descs(shards, set(failing_cases.keys()))
     for case, vs in sorted(failing_cases.items()):
         desc = desc_cache.get(case)
-        if desc is None:
-            desc = find_case_desc(shards, case)
-            desc_cache[case] = desc
         for v in vs:
             hit = None
             for e in open_known:
